@@ -1968,3 +1968,89 @@ class FAX(FA):
             fe = self._freeze(env)
             return [(x, fe) for x in self.b.succ(bb)]
         return FA._step(self, bb, envt)
+
+
+
+# ------------------------------------------------------------------------------------------------
+# appended: FA with two more value-preserving steps (used by the jobserver rules C08 / C09)
+
+class FAXM(FA):
+    """FA that also follows
+      * `Result::map_err(r, f)`: an `Ok(x)` stays `Ok(x)` (same payload), an `Err` stays an `Err` (payload unknown)
+        - the `.map_err(RedoError::opaque_error)?` idiom between a helper's result and the caller's `?`;
+      * `discriminant(x as V.f)`: the discriminant of a *payload* whose variant is known (`Ok(None)` / `Ok(Some(n))`
+        matched as `match r { Ok(Some(1)) => .., Ok(None) => .. }`).
+    Both only add knowledge about values, so the feasible paths stay a superset of the executable ones."""
+
+    _cache = {}
+
+    _MAP_ERR = re.compile(r"core::result::Result::map_err")
+
+    @classmethod
+    def _is_map_err(cls, t):
+        return t["t"] == "call" and any(cls._MAP_ERR.fullmatch(p) for p in callee_paths(t)) and len(t.get("args", [])) == 2
+
+    def _tracked(self):
+        b = self.b
+        rel = set(FA._tracked(self))
+        excluded = set()
+        for blk in b.blocks:
+            for s in blk["stmts"]:
+                if s["s"] == "assign":
+                    rv = s["rv"]
+                    if (rv["k"] == "ref" and rv.get("mut")) or rv["k"] == "rawptr":
+                        excluded.add(rv["place"]["l"])
+        changed = True
+        while changed:
+            changed = False
+            for blk in b.blocks:
+                for s in blk["stmts"]:
+                    if s["s"] != "assign" or s["place"]["p"] or s["place"]["l"] not in rel:
+                        continue
+                    rv = s["rv"]
+                    src = []
+                    if rv["k"] == "use":
+                        src = [op_place(rv["op"])]
+                    elif rv["k"] == "unop" and rv["op"] == "Not":
+                        src = [op_place(rv["a"])]
+                    elif rv["k"] == "discr":
+                        src = [rv["place"]]
+                    elif rv["k"] == "agg" and rv.get("agg") == "adt":
+                        src = [op_place(o) for o in rv["ops"]]
+                    for p in src:
+                        if p is not None and p["l"] not in rel and all(e.startswith("as:") or e.startswith("f:") for e in p["p"]):
+                            rel.add(p["l"])
+                            changed = True
+                t = blk["term"]
+                if t["t"] == "call" and not t["dest"]["p"] and t["dest"]["l"] in rel and (self._is_try_branch(t) or self._is_map_err(t)):
+                    p = op_place(t["args"][0])
+                    if p is not None and not p["p"] and p["l"] not in rel:
+                        rel.add(p["l"])
+                        changed = True
+        return rel - excluded
+
+    def _assign(self, env, s):
+        dst = s["place"]
+        rv = s["rv"]
+        if rv["k"] == "discr" and rv["place"]["p"] and not dst["p"] and dst["l"] in self.tracked:
+            pv = self._place_val(rv["place"], env)
+            self._kill(env, dst["l"])
+            if pv is not None and pv[0] == "v":
+                env[dst["l"]] = ("disc", pv[2])
+            return
+        FA._assign(self, env, s)
+
+    def _step(self, bb, envt):
+        t = self.b.blocks[bb]["term"]
+        if self._is_map_err(t) and not t["dest"]["p"] and t["dest"]["l"] in self.tracked:
+            env = self.env_before_term(bb, envt)
+            a = self._op_val(t["args"][0], env)
+            v = None
+            if a is not None and a[0] == "v" and a[1] == "core::result::Result":
+                v = a if a[2] == "Ok" else ("v", a[1], "Err", ())
+            self._kill(env, t["dest"]["l"])
+            if v is not None:
+                env[t["dest"]["l"]] = v
+            fe = self._freeze(env)
+            return [(x, fe) for x in self.b.succ(bb)]
+        return FA._step(self, bb, envt)
